@@ -179,12 +179,15 @@ def homog_case(am, defect, c, perm, inv, shift, u):
         return ('rotation is not skew(I - G)', 'got %s expected %s' % (np.round(st.rotation[0], 6).tolist(), np.round(mat(c['rotation']), 6).tolist()))
     if not np.allclose(st.invariant1, fr(c['inv1']), atol=1e-9):
         return ('first strain invariant is not the trace of the strain', '')
+    e_ = mat(c['strain'])
+    if not np.allclose(st.invariant2, 0.5 * (np.trace(e_) ** 2 - np.trace(e_ @ e_)), rtol=0, atol=1e-11) or not np.allclose(st.invariant3, np.linalg.det(e_), rtol=0, atol=1e-11):
+        return ('second / third strain invariant does not follow from the strain', '')
     if np.abs(st.nye).max() > 1e-8:
         return ('Nye tensor does not vanish for a homogeneous deformation', 'max %r' % np.abs(st.nye).max())
     # the function interface with explicit p vectors taken from the reference crystal
     nl0 = s0.neighborlist(cutoff=np.sqrt(c['cut2']) * u)
     pv = s0.dvect(0, nl0[0])
-    if len(set(a['t'] for a in c['atoms'])) == 1 and c['crystal'] != 'sc':
+    if len(set(a['t'] for a in c['atoms'])) == 1 and c['crystal'] not in ('sc', 'dia'):          # (diamond has two kinds of site: no single list of p vectors)
         # the class with ONE list of p vectors shared by all atoms (array, nested list or a list holding the one list)
         arg = [pv, pv.tolist(), [pv]][_pick(c, 3)]
         if len(pv) == s1.natoms:          # as many p vectors as atoms: a bare list would be read as one vector per atom
@@ -197,6 +200,13 @@ def homog_case(am, defect, c, perm, inv, shift, u):
             return ('nye_tensor() does not vanish for a homogeneous deformation', 'max %r' % np.abs(res['Nye_tensor']).max())
         if not np.allclose(res['strain'], mat(c['strain']), atol=1e-9):
             return ('nye_tensor() strain is not sym(I - G)', '')
+        e_ = mat(c['strain'])
+        i1, i2, i3 = np.trace(e_), 0.5 * (np.trace(e_) ** 2 - np.trace(e_ @ e_)), np.linalg.det(e_)
+        w_ = mat(c['rotation'])
+        av = np.sqrt(w_[0, 1] ** 2 + w_[0, 2] ** 2 + w_[1, 2] ** 2)
+        for nm, val in (('strain_invariant_1', i1), ('strain_invariant_2', i2), ('strain_invariant_3', i3), ('angular_velocity', av)):
+            if not np.allclose(res[nm], val, rtol=0, atol=1e-11):
+                return ('nye_tensor() %s does not follow from the strain / rotation' % nm, 'got %r expected %r' % (float(np.ravel(res[nm])[0]), float(val)))
     # ---- history on ONE Strain object: read derived properties, deform the system in place, re-solve, read again --------------
     if c.get('next') is not None:
         c2 = c['next']
